@@ -34,6 +34,17 @@ TARGETED = [
     [_BASE, ("let", "f", ("func", ["b"], ("copy", ("sym", "b"), [("n2", ("bin", "Mul", _self("n"), ("int", 2)))]))), ("let", "t", ("call", ("sym", "f"), [("sym", "base")]))],
 ]
 
+# filter / map callbacks answering with every kind of value (not only booleans) over every kind of collection: what is kept must
+# be the same for lists, tuples and strings
+_COLLS = [("str", "abc"), ("str", ""), ("list", [("int", 1), ("int", 0), ("str", "x")]), ("tuple", [("a", ("int", 1)), ("b", ("str", "s"))])]
+_ANSWERS = [lambda x: ("sym", x), lambda x: ("int", 0), lambda x: ("int", 7), lambda x: ("null",), lambda x: ("bool", True), lambda x: ("bool", False),
+            lambda x: ("str", ""), lambda x: ("str", "false"), lambda x: ("list", []), lambda x: ("list", [("sym", x)]),
+            lambda x: ("bin", "Equal", ("sym", x), ("str", "b")), lambda x: ("tuple", [("k", ("sym", x))]), lambda x: ("float", 0.0)]
+for _c in _COLLS:
+    for _a in _ANSWERS:
+        _ps = ["k", "v"] if _c[0] == "tuple" else ["c"]
+        TARGETED.append([("let", "r", ("filter", ("func", _ps, _a(_ps[-1])), _c))])
+
 
 def gen_batch(rng, n, max_depth):
     progs, counts = [], {}
